@@ -223,7 +223,15 @@ class Built(object):
             f.write(drv)
         cfiles = [f for f in sorted(os.listdir(self.dir)) if f.endswith('.c')]
         self.cfiles = cfiles
-        r = cexec.compile_driver(self.dir, cfiles, cc, cflags, threads=cexec.needs_threads(m))
+        extra = []
+        if os.path.exists(os.path.join(self.dir, 'datasegments')):
+            # -d gnu-ld: the data segments live in a side file that the linker embeds as a binary blob
+            r = cexec.run(['ld', '-r', '-b', 'binary', 'datasegments', '-o', 'datasegments.o'], cwd=self.dir)
+            if r.returncode != 0:
+                self.error = ('compile', 'ld -r -b binary datasegments failed: ' + r.stderr.decode(errors='replace')[-2000:])
+                return
+            extra = ['datasegments.o']
+        r = cexec.compile_driver(self.dir, cfiles, cc, cflags, threads=cexec.needs_threads(m), extra=extra)
         if r.returncode != 0:
             self.error = ('compile', r.stderr.decode(errors='replace')[-6000:])
 
